@@ -531,7 +531,14 @@ def stepCore (st : St) (op impl : List String) : St × Verdict :=
 /-- a Go panic recovered by the harness (`panic:<msg>`) has no state to parse: leave the verdict to
 the driver, which reports it as a C12 oracle failure with the op as replay -/
 def step (st : St) (op impl : List String) : St × Verdict :=
-  if (impl.head?.getD "").startsWith "panic" then (st, .mismatch "a response") else stepCore st op impl
+  if (impl.head?.getD "").startsWith "panic" then (st, .mismatch "a response") else
+  -- a member that re-requests the publisher's streams the moment it is told a WHIP stream is closed must not be pushed
+  -- that stream again (the harness appends `ghost=<member>:<stream>` when it is)
+  match impl.find? (·.startsWith "ghost=") with
+  | some g =>
+    let (st', _) := stepCore st op (impl.filter (fun t => !t.startsWith "ghost="))
+    (st', .oracle s!"C07,C13: WHIP teardown is not atomic with respect to a stream request: member:stream {(g.drop 6).toString} — the member had been told the stream was closed (PushConn with no connection) and, asking for the publisher's streams at that moment, was pushed the closed stream again: it keeps a stream that no longer exists")
+  | none => stepCore st op impl
 
 def engine : EngineDef := { σ := St, init := {}, step := step }
 
